@@ -669,7 +669,10 @@ class FakeNumpy:
 
     @staticmethod
     def allclose(a, b, *x, **k):
-        return _tolerance_test('np.allclose', x, k)
+        r = _tolerance_test('np.allclose', x, k)
+        if isinstance(a, Arr) and isinstance(b, Arr):
+            ctx().event('tolerance-test', a=a, b=b, tight=getattr(r, 'tight', None), detail=getattr(r, 'why', None) or 'np.allclose')
+        return r
 
     @staticmethod
     def isclose(a, b, *x, **k):
